@@ -28,7 +28,7 @@ class C07(BaseCheck):
   REQUIRED_ANCHORS = ANCHORS
   REQUIRED_CLASSES = ('queued', 'timed-out-while-queued', 'stale-at-head', 'max-waiters', 'dead-on-release',
                       'idle-retention', 'probe', 'handover', 'closed-while-lent', 'fault-before-release',
-                      'recovering-after-timeout', 'close-yields', 'arrival-during-release')
+                      'recovering-after-timeout', 'close-yields', 'arrival-during-release', 'request-while-pool-opening')
   ASSUMPTIONS = ('arrival order of queued requests = order in which their dispatch greenlets were spawned '
                  '(they do not yield before reaching the queue)',
                  'a max-waiters rejection is accepted whenever live + not-yet-skipped timed-out waiters >= '
@@ -341,12 +341,24 @@ class C07(BaseCheck):
 
     # ---------------------------------------------------------------- open
     open_ar = top.Open()
+    if open_mode != 'sync' and rng.random() < 0.4:
+      # requests that reach the pool while its own Open() is still waiting for the first connection
+      # (a balancer lets requests through to a member that is still opening)
+      classes.add('request-while-pool-opening')
+      for _i in range(rng.randint(1, 2)):
+        issue(rng.choice([None, 2.0]))
     g = 0
     while not open_ar.ready() and g < 50:
       env.advance(0.05)
       g += 1
     env.advance(0.3)
     invariants()
+    if not reqs and pool.state != CLOSED:
+      # nothing has been asked of the pool yet: it holds no more than min_watermark connections
+      out.obligations += 1
+      if len(live()) > mn:
+        viol('idle-retention', '%d connection(s) held right after Open() with no traffic, min_watermark=%d' % (len(live()), mn),
+             {'after': 'open'})
     nops = rng.choice([20, 60, 150, 300])
     death_cls = None
     for _ in range(nops):
